@@ -31,7 +31,8 @@ def generate(tier, seed):
     rnd.shuffle(pairs)
     fixed = [('p :- q.', 'p :- not not q.'), ('p(1..3).', 'p(1). p(2). p(3).'), (':- p(X), q(X).', ':- q(X), p(X).'),
              ('p(X + 1) :- q(X).', 'p(X) :- q(X - 1).'), ('p :- q. p :- not q.', 'p.' if False else 'p :- q.'),
-             ('p(a). q(b) :- p(a).', 'p(a) :- s, a < s1. s.')]
+             ('p(a). q(b) :- p(a).', 'p(a) :- s, a < s1. s.'), ('', ':- 1 < 2. :- a = b. :- 3 != 3.'), (':- 1 < 2. :- a = b.', ''),
+             ('p. q. r. s.', 'p :- q. q :- r. r :- s. s.')]
     n = 150 if tier == 'quick' else 676
     items = []
     for (l, r) in fixed + pairs[:n]:
